@@ -346,6 +346,13 @@ pub fn run_c19<P: TP>(c: &C19Case, env: &mut Env) -> R {
                     if f.sig.starts_with("C04:len") && (matches!(op, Op::ViewMut { .. })) {
                         break;
                     }
+                    // Only failures that say something about the *state* clone_from() produced (entries,
+                    // count, shape, arena, iteration, termination) are attributed to C19. An oracle of an
+                    // accessor that is wrong on every map (e.g. a C13 mut-twin mismatch) fails here as it
+                    // would on the source: it stays a foreign failure and ends the case without an alarm.
+                    if !crate::c20::STATE_PROPS.contains(&f.prop) {
+                        return Err(f);
+                    }
                     return Err(crate::env::Fail {
                         prop: "C19",
                         sig: format!("C19:clone_from:diverges:{}", f.sig),
